@@ -86,6 +86,21 @@ def expected_rows(spec, f):
     return out
 
 
+def chain_rows(spec, fa, fb):
+    """Rows of grid.filter(A).filter(B), by construction: B is evaluated on the sub-grid, so a reference
+    only resolves when its target row is itself in A's result."""
+    first = expected_rows(spec, fa)
+    if fb['kind'] != 'ref':
+        second = set(expected_rows(spec, fb))
+        return [j for j in first if j in second]
+    out = []
+    for j in first:
+        tgt = spec['refs'].get(str(j))
+        if tgt is not None and tgt in first and tgt in spec['tags'].get(fb['t'], []):
+            out.append(j)
+    return out
+
+
 def filter_text(f):
     k = f['kind']
     if k == 'has':
@@ -301,7 +316,7 @@ class C13(BaseCheck):
         for t in range(nthreads):
             ops = []
             for _ in range(k.choice([1, 1, 2, 3, 4, 6]) if tier == 'quick' else k.choice([1, 2, 3, 4, 6, 9])):
-                kind = r.choice(['filter', 'filter', 'filter', 'filter', 'limit', 'hold', 'callheld', 'scan', 'bad', 'recheck', 'spoil'])
+                kind = r.choice(['filter', 'filter', 'filter', 'filter', 'limit', 'hold', 'callheld', 'scan', 'bad', 'recheck', 'spoil', 'chain'])
                 if kind == 'filter':
                     ops.append({'op': 'filter', 'f': r.randrange(len(pool))})
                 elif kind == 'limit':
@@ -318,6 +333,10 @@ class C13(BaseCheck):
                     ops.append({'op': 'bad', 'b': r.randrange(len(BAD_FILTERS))})
                 elif kind == 'spoil':
                     ops.append({'op': 'spoil'})
+                elif kind == 'chain':
+                    # a filter evaluated on the RESULT of another filter: a reference whose target row is not in
+                    # the sub-grid does not resolve there, whatever it resolved to on the full grid earlier
+                    ops.append({'op': 'chain', 'f': r.randrange(len(pool)), 'g': r.randrange(len(pool))})
                 else:
                     ops.append({'op': 'recheck'})
             threads.append({'ops': ops})
@@ -439,7 +458,10 @@ class C13(BaseCheck):
         try:
             g = build_grid(hs, case['grid'])
             try:
-                rows = self._ids(g.filter(case['text'], case.get('limit', 0)))
+                if case.get('chain'):
+                    rows = self._ids(g.filter(case['chain'][0]).filter(case['chain'][1]))
+                else:
+                    rows = self._ids(g.filter(case['text'], case.get('limit', 0)))
             except Exception as e:
                 rows = ['exc', type(e).__name__]
         finally:
@@ -458,7 +480,7 @@ class C13(BaseCheck):
             return res
         spec = {'nrows': HIST_ROWS, 'tags': {}, 'refs': {}} if solo.get('hist') else case['grid']
         sres = run_isolated(self, {'class': 'solo', 'grid': spec, 'text': solo['text'], 'limit': solo.get('limit', 0),
-                                   'knobs': {'warm': True}})
+                                   'chain': solo.get('chain'), 'knobs': {'warm': True}})
         rows = sres.get('solo_rows')
         is_exc = isinstance(rows, list) and rows[:1] == ['exc']
         want = solo['want']
@@ -646,6 +668,16 @@ class C13(BaseCheck):
                                 results.append((tid, oi, 'bad', b, 'exception', got))
                             except Exception as e:
                                 results.append((tid, oi, 'bad', b, 'exception', ('exc', type(e).__name__, '')))
+                        elif op == 'chain':
+                            fa = pool[o['f'] % len(pool)]
+                            fb = pool[o['g'] % len(pool)]
+                            want = chain_rows(spec, fa, fb)
+                            try:
+                                got = self._ids(grid.filter(fa['text']).filter(fb['text']))
+                            except Exception as e:
+                                got = ('exc', type(e).__name__, str(e)[:160])
+                            results.append((tid, oi, 'chain', (o['f'] % len(pool), o['g'] % len(pool)), want, got))
+                            used.append(fa)
                         elif op == 'spoil':
                             # the caller edits a result it obtained earlier: later evaluations of the same
                             # filter must not see the edit (results are not shared between calls)
@@ -712,7 +744,13 @@ class C13(BaseCheck):
             if viol:
                 break
             tid, oi, kind, fi, want, got = rec
+            chain = None
+            if kind == 'chain':
+                chain = [pool[fi[0]]['text'], pool[fi[1]]['text']]
+                fi = fi[1]
             text = pool[fi]['text'] if isinstance(fi, int) and fi >= 0 else (filter_text({'kind': 'scan', 'v': (-1 - fi) % spec['nrows'], 'u': -1 - fi}) if isinstance(fi, int) else fi)
+            if chain:
+                text = '%s  [evaluated on the result of]  %s' % (chain[1], chain[0])
             if kind == 'bad':
                 if not (isinstance(got, tuple) and got and got[0] == 'exc'):
                     viol = {'clause': 'wrong-rows', 'detail': {'thread': tid, 'op': oi, 'kind': kind, 'filter': text,
@@ -737,6 +775,12 @@ class C13(BaseCheck):
                     # a result obtained earlier changed under the caller's feet: no solo evaluation can excuse that
                     del viol['solo']
                     viol['clause'] = 'kept-result-changed'
+        if viol and viol.get('solo') and viol['detail'].get('kind') == 'chain':
+            # the pristine-process confirmation must evaluate the same chain
+            last = [rec for rec in results + post if rec[2] == 'chain' and rec[0] == viol['detail']['thread'] and rec[1] == viol['detail']['op']]
+            if last:
+                a_i, b_i = last[0][3]
+                viol['solo'] = {'chain': [pool[a_i]['text'], pool[b_i]['text']], 'want': viol['solo']['want'], 'limit': 0, 'text': pool[b_i]['text']}
         for t in sim.threads:
             if t.exc is not None and not viol:
                 raise runner.HarnessError('workload body raised: %r' % (t.exc,))
